@@ -39,6 +39,27 @@ theorem ainv_fulfillP {k : K} (h : AInv k) (p : Nat) (v : Val) : AInv (fulfillP 
 theorem ainv_congr {k k' : K} (h : AInv k) (hn : k'.nextRid = k.nextRid) (hp : k'.proms = k.proms) : AInv k' :=
   ainv_of h (by rw [hn]; exact Nat.le_refl _) (fun q => by rw [getP_of_proms_eq hp])
 
+theorem ainv_addReactions {k : K} (h : AInv k) (p : Nat) (cap : Option Cap) (f g : Option Fn) :
+    AInv (addReactions k p cap f g) := by
+  by_cases hlt : p < k.proms.length
+  · intro q
+    rw [(addReactions_getP k p cap f g hlt q).2.2, addReactions_nextRid k p cap f g hlt]
+    by_cases e : q = p
+    · subst e
+      simp only [if_true]
+      obtain ⟨a, b⟩ := h q
+      constructor
+      · rw [List.pairwise_append]
+        exact ⟨a, List.pairwise_singleton _ _, fun x hx y hy => by simp at hy; subst hy; exact b x hx⟩
+      · intro rid hr
+        rw [List.mem_append] at hr
+        rcases hr with hr | hr
+        · have := b rid hr; omega
+        · simp at hr; omega
+    · simp only [e, if_false]
+      exact ⟨(h q).1, fun rid hr => by have := (h q).2 rid hr; omega⟩
+  · unfold addReactions; simp only [hlt, if_false]; exact h
+
 theorem ainv_applyOp {k : K} (h : AInv k) (op : KOp) : AInv (applyOp op k) := by
   cases op with
   | newCap =>
@@ -81,29 +102,25 @@ theorem ainv_applyOp {k : K} (h : AInv k) (op : KOp) : AInv (applyOp op k) := by
         exact ainv_rejectP h' _ _
   | addReactions p cap f g =>
     simp only [applyOp]
-    by_cases hlt : p < k.proms.length
-    · intro q
-      rw [(addReactions_getP k p cap f g hlt q).2.2, addReactions_nextRid k p cap f g hlt]
-      by_cases e : q = p
-      · subst e
-        simp only [if_true]
-        obtain ⟨a, b⟩ := h q
-        constructor
-        · rw [List.pairwise_append]
-          exact ⟨a, List.pairwise_singleton _ _, fun x hx y hy => by simp at hy; subst hy; exact b x hx⟩
-        · intro rid hr
-          rw [List.mem_append] at hr
-          rcases hr with hr | hr
-          · have := b rid hr; omega
-          · simp at hr; omega
-      · simp only [e, if_false]
-        exact ⟨(h q).1, fun rid hr => by have := (h q).2 rid hr; omega⟩
-    · unfold addReactions; simp only [hlt, if_false]; exact h
+    split
+    · exact ainv_addReactions h p cap f g
+    · exact h
   | popJob =>
     simp only [applyOp, popJob]
     split
     · exact h
-    · split <;> exact ainv_congr h rfl rfl
+    · exact ainv_congr h (popJobQ_nextRid k) (popJobQ_proms k)
+  | asyncStart => exact ainv_congr h rfl rfl
+  | await ar p =>
+    simp only [applyOp, awaitOp]
+    split
+    · exact ainv_congr (ainv_addReactions h p none _ _) rfl rfl
+    · exact h
+  | asyncDone ar =>
+    simp only [applyOp, asyncDone]
+    split
+    · exact ainv_congr h rfl rfl
+    · exact h
   | leaveAbrupt => exact ainv_congr h rfl rfl
 
 theorem ainv_reach {k : K} (h : Reach k) : AInv k := by
@@ -153,6 +170,33 @@ theorem shape_fulfillP (k : K) (p : Nat) (v : Val) : Shape k (fulfillP k p v) :=
 theorem shape_enqueue (k : K) (mk : Nat → Job) (hmk : ∀ s, (mk s).sid = s) : Shape k (enqueue k mk) :=
   .enq [mk k.nextSid] 1 rfl (by simp [hmk, List.range'_one]) rfl rfl
 
+theorem shape_addReactions (k : K) (p : Nat) (cap : Option Cap) (f g : Option Fn) :
+    Shape k (addReactions k p cap f g) := by
+  simp only [addReactions]
+  split
+  · unfold markHandled addReactionsCore
+    simp only []
+    split
+    · exact shape_same rfl rfl rfl
+    · exact .enq [_] 1 rfl (by simp [Job.sid, List.range'_one]) rfl rfl
+    · split
+      · exact .enq [_] 1 rfl (by simp [Job.sid, List.range'_one]) rfl rfl
+      · exact .enq [_] 1 rfl (by simp [Job.sid, List.range'_one, track]) rfl rfl
+  · exact shape_same rfl rfl rfl
+
+theorem shape_popJobQ (k : K) : Shape k (popJobQ k) := by
+  unfold popJobQ
+  split
+  · exact shape_same rfl rfl rfl
+  · split <;> exact .start _ rfl rfl rfl
+
+theorem shape_trans_same_right {k k' k'' : K} (s : Shape k k') (h1 : k''.enq = k'.enq) (h3 : k''.nextSid = k'.nextSid)
+    (h4 : k''.ran = k'.ran) : Shape k k'' := by
+  cases s with
+  | enq js n a b c d => exact .enq js n (by rw [h1, a]) b (by rw [h3, c]) (by rw [h4, d])
+  | start j a c d => exact .start j (by rw [h1, a]) (by rw [h3, c]) (by rw [h4, d])
+  | drop a c d => exact .drop (by rw [h1, a]) (by rw [h3, c]) (by rw [h4, d])
+
 theorem shape_applyOp (k : K) (op : KOp) : Shape k (applyOp op k) := by
   cases op with
   | newCap => exact shape_same rfl rfl rfl
@@ -179,23 +223,24 @@ theorem shape_applyOp (k : K) (op : KOp) : Shape k (applyOp op k) := by
       · rename_i p already hl hal
         exact shape_trans_same (k := { k with latches := k.latches.set l (p, true) }) rfl rfl rfl (shape_rejectP _ _ _)
   | addReactions p cap f g =>
-    simp only [applyOp, addReactions]
+    simp only [applyOp]
     split
-    · unfold markHandled addReactionsCore
-      simp only []
-      split
-      · exact shape_same rfl rfl rfl
-      · exact .enq [_] 1 rfl (by simp [Job.sid, List.range'_one]) rfl rfl
-      · split
-        · exact .enq [_] 1 rfl (by simp [Job.sid, List.range'_one]) rfl rfl
-        · exact .enq [_] 1 rfl (by simp [Job.sid, List.range'_one, track]) rfl rfl
+    · exact shape_addReactions k p cap f g
     · exact shape_same rfl rfl rfl
   | popJob =>
     simp only [applyOp, popJob]
     split
     · exact shape_same rfl rfl rfl
-    · rename_i x j rest hc
-      split <;> exact .start _ rfl rfl rfl
+    · exact shape_trans_same_right (shape_popJobQ k) rfl rfl rfl
+  | asyncStart => exact shape_same rfl rfl rfl
+  | await ar p =>
+    simp only [applyOp, awaitOp]
+    split
+    · exact shape_trans_same_right (shape_addReactions k p none _ _) rfl rfl rfl
+    · exact shape_same rfl rfl rfl
+  | asyncDone ar =>
+    simp only [applyOp, asyncDone]
+    split <;> exact shape_same rfl rfl rfl
   | leaveAbrupt => exact .drop rfl rfl rfl
 
 /-- Relative to a baseline (jobs R0 started so far, serial counter N): the live log is R0 followed by jobs with
@@ -252,6 +297,18 @@ theorem jobs_fulfillP (k : K) (p : Nat) (v : Val) :
   rw [trigger_eq]
   exact ⟨⟨_, rfl⟩, rfl⟩
 
+theorem jobs_addReactions (k : K) (p : Nat) (cap : Option Cap) (f g : Option Fn) :
+    (∃ js, (addReactions k p cap f g).jobs = k.jobs ++ js) ∧ (addReactions k p cap f g).ran = k.ran := by
+  simp only [addReactions]
+  split
+  · unfold markHandled addReactionsCore
+    simp only []
+    split
+    · exact ⟨⟨[], by simp [K.setP]⟩, rfl⟩
+    · exact ⟨⟨_, rfl⟩, rfl⟩
+    · split <;> exact ⟨⟨_, rfl⟩, rfl⟩
+  · exact ⟨⟨[], by simp⟩, rfl⟩
+
 theorem jobs_applyB (o : BOp) (k : K) :
     (∃ js, (applyOp o.toK k).jobs = k.jobs ++ js) ∧ (applyOp o.toK k).ran = k.ran := by
   have same : ∀ k' : K, k'.jobs = k.jobs → k'.ran = k.ran → (∃ js, k'.jobs = k.jobs ++ js) ∧ k'.ran = k.ran :=
@@ -280,15 +337,19 @@ theorem jobs_applyB (o : BOp) (k : K) :
       · rename_i p already hl hal
         exact jobs_rejectP { k with latches := k.latches.set l (p, true) } p _
   | addReactions p cap f g =>
-    simp only [BOp.toK, applyOp, addReactions]
+    simp only [BOp.toK, applyOp]
     split
-    · unfold markHandled addReactionsCore
-      simp only []
-      split
-      · exact same _ rfl rfl
-      · exact ⟨⟨_, rfl⟩, rfl⟩
-      · split <;> exact ⟨⟨_, rfl⟩, rfl⟩
+    · exact jobs_addReactions k p cap f g
     · exact same _ rfl rfl
+  | asyncStart => exact same _ rfl rfl
+  | await ar p =>
+    simp only [BOp.toK, applyOp, awaitOp]
+    split
+    · exact jobs_addReactions k p none _ _
+    · exact same _ rfl rfl
+  | asyncDone ar =>
+    simp only [BOp.toK, applyOp, asyncDone]
+    split <;> exact same _ rfl rfl
 
 /-- Code running inside an outermost call or a job only APPENDS to the list of not yet started jobs and starts none. -/
 theorem bodyReach_mono {k0 k : K} (h : BodyReach k0 k) : (∃ js, k.jobs = k0.jobs ++ js) ∧ k.ran = k0.ran := by
@@ -298,5 +359,14 @@ theorem bodyReach_mono {k0 k : K} (h : BodyReach k0 k) : (∃ js, k.jobs = k0.jo
     obtain ⟨⟨js, h1⟩, h2⟩ := ih
     obtain ⟨⟨js2, h3⟩, h4⟩ := jobs_applyB o _
     exact ⟨⟨js ++ js2, by rw [h3, h1, List.append_assoc]⟩, by rw [h4, h2]⟩
+
+theorem popJob_cons (k : K) (j : Job) (rest : List Job) (hj : k.jobs = j :: rest) :
+    (popJob k).jobs = rest ∧ (popJob k).ran = k.ran ++ [j] := by
+  unfold popJob
+  rw [hj]
+  simp only []
+  unfold popJobQ
+  rw [hj]
+  cases j <;> exact ⟨rfl, rfl⟩
 
 end GojaModel.C10
